@@ -95,6 +95,10 @@ pub trait Interface: ErrorHandler {
                     header = call_header;
                 }
             }
+            else {
+                // An empty program message also ends with a terminator.
+                header = self.root_node();
+            }
 
             input = i;
         }
